@@ -181,9 +181,7 @@ def searchOr (v : View K) (q : List K) : List Int := multiunion (q.map v.post)
 /-- `search(query, 'and')`: `sets.sort(key=len)`, intersect smallest first, stop when empty -/
 def searchAnd (v : View K) (q : List K) : List Int :=
   let sets := Sort.isort (fun a b => decide (a.length ≤ b.length)) (q.map v.post)
-  match interLoop none sets with
-  | some rs => rs
-  | none => []
+  (interLoop none sets).getD []          -- `if rs: return rs else: return IF.Set()`
 
 /-- `BaseIndexMixin.docids` -/
 def docids (v : View K) : List Int :=
@@ -226,6 +224,15 @@ def QObj.apply (s : State K) : QObj K → List Int
   | .notany ks => applyNotAny s ks
   | .all ks => applyAll s ks
   | .notall ks => applyAll s ks
+
+/-- the index's own entry points `applyEq … applyNotAll` -/
+def QObj.applyIndex (s : State K) : QObj K → List Int
+  | .eq k => applyEq s k
+  | .noteq k => applyNotEq s k
+  | .any ks => applyAny s ks
+  | .notany ks => applyNotAny s ks
+  | .all ks => applyAll s ks
+  | .notall ks => applyNotAll s ks
 
 /-! ## enumeration / statistics -/
 def indexed (s : State K) : List Int := AMap.keys s.rev
